@@ -81,11 +81,21 @@ def c09(run, a):
 @drv.check('C12')
 def c12(run, a):
     vlib.extract()
-    vlib.standard_lean_phase(run, 'BytesVerif.Props.C12')
+    vlib.standard_lean_phase(run, 'BytesVerif.Props.C12', None, ['BytesVerif.Props.C11'])
+    for t in ['BytesVerif.BufMut.limit_room', 'BytesVerif.BufMut.limit_putSlice_inner', 'BytesVerif.BufMut.chain_putSlice_inner', 'BytesVerif.BufMut.writerWrite_spec']:
+        ok, found, problems = vlib.audit_axioms(['BytesVerif.Props.C11'], [t], 'C12w')
+        run.obligation(t, ok, '; '.join(problems))
+        run.axioms[t] = found.get(t)
+        if not ok:
+            run.breakage('write-side theorem of C12 no longer checks', t)
     run.trusted += BUF_TRUST
     dbg = vlib.cargo_build('debug')
-    run_buf_stream(run, a, 'C12', 'cursor', dbg, {'C12'})
-    run.cov['rule'] = ("T2 (read side): same cursor stream as C09; after every consuming op through a Take / Chain root the judge checks "
+    if not (a.replay and open(a.replay).read().find('\nm ') >= 0):
+        run_buf_stream(run, a, 'C12', 'cursor', dbg, {'C12'})
+    if not (a.replay and open(a.replay).read().find('\nt ') >= 0):
+        run_mut_stream(run, a, 'C12', dbg, {'C12'})
+    run.cov['rule'] = ("T2 (write side): mut stream of C11, the judge checks limit()/get_ref() and the first/second targets of Chain after every "
+                       "write, Writer write/flush results; T2 (read side): same cursor stream as C09; after every consuming op through a Take / Chain root the judge checks "
                        "limit() and the inner buffers (printed through get_ref()/first_ref()/last_ref()) against 'advanced by exactly the "
                        "bytes that went through'; Reader read/fill_buf/consume; set_limit in mid-stream; distinct_nontrivial = cases executed")
     run.samples += ['t take 3 chain slice 0102 bytes 0304 ; o read 2 -> 2 0102 ; st take 1 chain slice - bytes 0304']
@@ -127,4 +137,75 @@ def c10(run, a):
                        "shortfall 0..size-1, debug and release builds; values compared as integers / float bit patterns against the Lean "
                        "`decode`; distinct_nontrivial = cases executed")
     run.samples += ['t seg 2 ff 7f00 ; o get get_i16_le -> v 32767', 'theorem get_ok … : evalBody c form r.body nbytes b = .ok (.val (decode r.spec ((den b).take size)), b′)']
+    return run.finish()
+
+
+def run_mut_stream(run, a, pid, binpath, fail_pids):
+    cmd = [binpath, 'mut'] + (['replay', a.replay] if a.replay else [])
+    out, hrc, jrc, herr = vlib.pipe(cmd, ['mut'])
+    if hrc != 0 or jrc != 0:
+        run.breakage('mut stream did not complete', f'harness rc={hrc} judge rc={jrc}\n{herr[-1000:]}')
+    for ln in out:
+        tags, d = vlib.kv(ln)
+        if not tags:
+            continue
+        if tags[0] == 'oracle-fail':
+            fp = tags[1] if len(tags) > 1 else '?'
+            replay = d.get('replay', '').replace('~', ' ').replace('|', '\n')
+            if fp in fail_pids:
+                key = f"method={d.get('method')}" if d.get('method', '-') != '-' else f"op={d.get('op')}:root={d.get('root')}"
+                run.fail(key, ln.split(' replay=')[0], replay)
+        elif tags[0] == 'model-diff':
+            replay = d.get('replay', '').replace('~', ' ').replace('|', '\n')
+            run.breakage('correspondence (mut stream): model and implementation disagree', ln.split(' replay=')[0] + '\n' + replay)
+        elif tags[0] in ('tie-gap', 'bad-trace'):
+            if tags[0] == 'tie-gap' and (pid != 'C11' or a.replay):
+                continue
+            run.breakage('correspondence (mut stream): ' + tags[0], ln)
+        elif tags[0] == 'summary':
+            run.cov['t2_mut'] = d
+            run.cov['evaluations'] = run.cov.get('evaluations', 0) + int(d['ops'])
+            run.cov['distinct_nontrivial'] = run.cov.get('distinct_nontrivial', 0) + int(d['cases'])
+    run.samples += [l.split(' replay=')[0] for l in out if l.startswith('oracle-fail')][:2]
+    return out
+
+
+@drv.check('C11')
+def c11(run, a):
+    pid = 'C11'
+    info = vlib.extract()
+    run.cov['extracted'] = info.get('Putters.lean')
+    props_ok, cert_ok = vlib.standard_lean_phase(run, 'BytesVerif.Props.C11', 'BytesVerif.Cert.C11')
+    run.trusted += [
+        "hand transliteration of src/buf/{buf_mut,limit,chain,writer,uninit_slice}.rs and `unsafe impl BufMut for BytesMut` into "
+        "Model/BufMut.lean (tied by T2: results and full target-tree state compared after every op; spare capacities re-synchronised "
+        "from the trace because the allocator decides them)",
+        "tools/extract.py (T1): put_* bodies -> PutBody terms, method name -> Spec, default put/put_slice/put_bytes text fingerprints, "
+        "deref_forward_bufmut! rows; fail-closed",
+        "harness mut stream (targets over the real crate types, guard bytes and fill pattern around fixed-size targets) + judge parser",
+        "the region within 64 bytes of isize::MAX of a growable target is excluded (noHardLimit): not reachable with real memory",
+        "little-endian host for the _ne methods; floats as bit patterns",
+    ]
+    dbg = vlib.cargo_build('debug')
+    if not cert_ok:
+        lines, _ = vlib.run_judge(['cert-c11'])
+        run.notes += lines[:20]
+        if run.cert_breakage is not None:
+            run.cert_breakage['detail'] += '\n' + '\n'.join(lines[:40])
+    run_mut_stream(run, a, pid, dbg, {'C11'})
+    if not a.replay:
+        rel = vlib.cargo_build('release')
+        run_mut_stream(run, a, pid, rel, {'C11'})
+    if not cert_ok and run.cert_breakage is not None:
+        lines, _ = vlib.run_judge(['cert-c11'])
+        bad_methods = {vlib.kv(l)[1].get('method') for l in lines if l.startswith('bad-row')}
+        others = [l for l in lines if l.startswith('bad-') and not l.startswith('bad-row')]
+        failing = {f['key'].split('=', 1)[1] for f in run.oracle_fails if f['key'].startswith('method=')}
+        run.cert_breakage['explained'] = bool(bad_methods) and bad_methods <= failing and not others
+    run.cov['rule'] = ("T2: target trees (Vec, BytesMut at several capacities, &mut [u8], &mut [MaybeUninit<u8>], Limit with limits 0..MAX, Chain, "
+                       "&mut, Box, seeded random nestings to depth 3) x sequences of put_slice/put_bytes/put(Buf)/write of growing sizes "
+                       "(straddling chunk ends, triggering growth, not fitting) + every put_X x boundary values x nbytes 0..9 x fill levels; "
+                       "guard bytes checked after every op, also after panics; debug and release; distinct_nontrivial = cases executed")
+    run.samples += ['m chain slice 1 uninit 4 ; o put put_i32_le -2 -> ok ; st chain fixed slice fe 0 fixed uninit ffffff 1 g=1',
+                    'theorem put_ok … : evalPut e r.body v nbytes t = .ok t′ ∧ written t′ = written t ++ encode r.spec v nbytes']
     return run.finish()
